@@ -4,7 +4,8 @@ TAG="$1"; PROP="$2"; SID="$3"; shift 3; CHECKS="${*:-$PROP}"
 OUT="/var/tmp/mut-$TAG-out"; WT="/var/tmp/seedchk-$$"
 [ -f "$OUT/patch.diff" ] || { echo "no $OUT/patch.diff"; exit 2; }
 git -C /repo worktree add -q "$WT" HEAD || exit 2
-trap 'git -C /repo worktree remove --force "$WT" >/dev/null 2>&1' EXIT
+COQPRIV="/var/tmp/gv-coq-$(printf %s "$WT" | sha1sum | cut -c1-10)"
+trap 'git -C /repo worktree remove --force "$WT" >/dev/null 2>&1; rm -rf "$COQPRIV" "$COQPRIV.lock"' EXIT
 git -C "$WT" apply "$OUT/patch.diff" || { echo "patch does not apply"; exit 2; }
 export PATH="/verif/harness/bin:$PATH"
 (cd "$OUT" && PYTHONPATH=/repo timeout 900 /venv/bin/python demo.py >/dev/null 2>&1); A=$?
